@@ -644,6 +644,9 @@ func GenSchedPlan(seed uint64, idx int, prop string) *plan.SchedPlan {
 	k := 1
 	if prop == "C12" {
 		k = r.Range(2, 4)
+		if r.Chance(0.05) {
+			k = r.Range(5, 8)
+		}
 	}
 	if prop == "C12" && r.Chance(0.3) {
 		return genHammer(p, r, uniq, k)
